@@ -29,8 +29,6 @@ func workerMain() int {
 	})
 }
 
-func eventName(i int) string { return fmt.Sprintf("e%d", i) }
-
 // replayHist re-executes one history with the plain harness and prints every block's verdict.
 func replayHist(h []int) int {
 	harness.SilenceStdout()
@@ -80,7 +78,7 @@ func Main(args []string) int {
 	var histFlag string
 	var maxK, depthFlag int
 	f := explore.ParseFlags(prop, args, func(fs *flag.FlagSet) {
-		fs.StringVar(&histFlag, "hist", "", "replay a history given as comma separated indexes (configuration, then events)")
+		fs.StringVar(&histFlag, "hist", "", "replay a history given as comma separated names or indexes (configuration, then events), e.g. long-skew-c3i2,default,default,dt-400d")
 		fs.IntVar(&maxK, "k", -1, "largest deviation bound to run (default: tier)")
 		fs.IntVar(&depthFlag, "depth", -1, "blocks per history (default: tier)")
 	})
@@ -90,10 +88,19 @@ func Main(args []string) int {
 	if histFlag != "" {
 		var h []int
 		for _, p := range strings.Split(histFlag, ",") {
-			n, err := strconv.Atoi(strings.TrimSpace(p))
+			p = strings.TrimSpace(p)
+			n, err := strconv.Atoi(p)
 			if err != nil {
-				fmt.Println(err)
-				return 2
+				n = -1
+				for i := 0; i < len(worlds())+numEvents(); i++ {
+					if eventName(i) == p || eventName(i) == "config:"+p {
+						n = i
+					}
+				}
+				if n < 0 {
+					fmt.Printf("unknown element %q\n", p)
+					return 2
+				}
 			}
 			h = append(h, n)
 		}
@@ -138,7 +145,7 @@ func Main(args []string) int {
 				if d == 0 {
 					return len(ws)
 				}
-				return nev
+				return len(ws) + nev
 			},
 			Deadline:  deadline,
 			PerJob:    2 * time.Minute,
@@ -183,7 +190,9 @@ func Main(args []string) int {
 		}
 		active = append(active, w.Name+": "+w.Note)
 		for _, e := range w.events() {
-			names[w.Name] = append(names[w.Name], e.Name)
+			if !e.NA {
+				names[w.Name] = append(names[w.Name], e.Name)
+			}
 		}
 	}
 	rep.Set("configurations_explored", active)
@@ -194,7 +203,7 @@ func Main(args []string) int {
 		"search": "deviation-bounded breadth-first search, all successors of every new state, dedup on configuration + height + recent block times + deviations spent + restart age + digest of the reward, delegation-reward, delegation and pool-balance records",
 	})
 	rep.Assume("block times advance by at least one second per block (Tendermint's default TimeIotaMs = 1000, which the repository's genesis generator uses): a calculation cycle never lasts 0 seconds")
-	rep.Assume("the validator set is constant within a history (no staking operations in this alphabet; changing powers are covered through the two power distributions and the delegation pool sizes)")
+	rep.Assume("powers change only through the two power distributions, the delegation pool sizes and (thorough tier, two configurations) one UNSTAKE that lowers V2's power or drops it out of the validator set; no validator joins")
 	rep.Assume("'pulled' is read from the real PullRewards of a fresh RewardCumulativeStore on the committed state before the block (what a node restarted at that point pulls); the running node's own figure is not observable and is covered through credited <= pulled and the restart twins")
 	rep.Assume("drawing from the next year inside YearCloseWindow, and skipping a year in which the forecast fits no block, are treated as the schedule's own rules (configuration options), not as violations")
 	rep.Assume("a WITHDRAW_REWARD counts as accepted when DeliverTx returns code 0 (CheckTx runs on the previous block's state and may disagree)")
@@ -202,6 +211,9 @@ func Main(args []string) int {
 	// vacuity: every operation must be accepted somewhere (except the one that must always fail)
 	var never []string
 	ops := []string{opDelegSmall, opDelegBig, opUndelegBig, opDonateDeleg, opDonateRewards, opWOne, opWAll}
+	if !quick {
+		ops = append(ops, opUnstake)
+	}
 	if K >= 1 && boundDone >= 1 {
 		for _, op := range ops {
 			if st.Info["accepted."+op] == 0 {
